@@ -172,11 +172,15 @@ def unify_level(res, dom, known_triples, tier, seed):
     for tk in known_triples:
         known_sets.add(json.dumps(sorted(json.dumps(x) for x in json.loads(tk))))
     orders = [{"mode": "sorted", "seed": 0}, {"mode": "reversed", "seed": 0}] + [{"mode": "shuffle", "seed": k} for k in (1, 2, 3, 4)]
-    cases = [[a, b] for a in dom for b in dom if key(a) <= key(b)]
+    # packed encodings are left out at this level: merging them emits judgements about their span variables, which
+    # are folded in later rounds and can then meet one of the recorded non-associative shapes although the triple
+    # itself is associative - that order dependence is the recorded C16 / C02 finding, not a new one
+    udom = [e for e in dom if shape(e) != "packed"]
+    cases = [[a, b] for a in udom for b in udom if key(a) <= key(b)]
     n_tri = 5000 if tier == "quick" else 60000
     tried = 0
     while tried < n_tri:
-        t = [rng.choice(dom) for _ in range(3)]
+        t = [rng.choice(udom) for _ in range(3)]
         tried += 1
         if json.dumps(sorted(json.dumps(x) for x in t)) in known_sets:
             res.count("unify_level_skipped_known_triples")
